@@ -22,6 +22,7 @@ const (
 	KTuple
 	KFunc
 	KMap
+	KArr    // spec-only: an SMT array (ghost maps); Len = index sort, Cap = element sort
 	KOpaque // value we do not model (float, chan, array, complex): an Int-sorted fresh symbol
 )
 
